@@ -251,6 +251,7 @@ type UnitResult struct {
 	UsedLemmas  []string
 	HavocAll    bool
 	Ctx         *Ctx
+	unit        *Unit
 }
 
 // verifyFunc generates the obligations of one function.
@@ -268,9 +269,9 @@ func (eng *Engine) verifyFunc(p *packages.Package, key string, safetyOnly bool) 
 	u := &Unit{eng: eng, pkg: p, info: p.TypesInfo, fset: eng.fset, pkgName: p.Types.Name(), key: key, decl: fd, obj: obj,
 		sig: obj.Type().(*types.Signature), c: newCtx(mode == "bv", p.Types), ct: ct, cs: cs, nameCount: map[string]int{},
 		paramSyms: map[string]string{}, unfolded: map[string]bool{}, exprCount: map[string]int{}, calledContracts: map[string]bool{},
-		usedLemmas: map[string]bool{}, externalCalls: map[string]bool{}, loopsSeen: map[int]bool{}, sliceDefs: map[string]string{}, lenHints: map[string]int64{},
+		usedLemmas: map[string]bool{}, externalCalls: map[string]bool{}, loopsSeen: map[int]bool{}, sliceDefs: map[string]string{}, lenHints: map[string]int64{}, rangeVars: map[int]*types.Var{},
 		entryVals: map[*types.Var]Term{}}
-	res := &UnitResult{Pkg: p.Types.Name(), Key: key, Mode: mode, Contracted: ct != nil, Ctx: u.c}
+	res := &UnitResult{Pkg: p.Types.Name(), Key: key, Mode: mode, Contracted: ct != nil, Ctx: u.c, unit: u}
 	if fd.Body == nil {
 		return nil, fmt.Errorf("function %s has no body", key)
 	}
@@ -339,6 +340,12 @@ func (u *Unit) run() {
 		}
 	}
 	bind(u.sig.Recv())
+	if rv := u.sig.Recv(); rv != nil && rv.Name() != "" && rv.Name() != "_" {
+		if _, isPtr := rv.Type().Underlying().(*types.Pointer); isPtr {
+			// methods are verified for non-nil receivers; call sites carry the matching obligation
+			st.assume(not(eq(u.entryVals[rv].S, "0")))
+		}
+	}
 	for i := 0; i < u.sig.Params().Len(); i++ {
 		bind(u.sig.Params().At(i))
 	}
